@@ -134,7 +134,7 @@ UNLOCKED_OK = {
 }
 
 
-@ob("C08.1", ["C08", "C09", "C23", "C16"], "an unsynchronised access to a value's metadata/durability/fields/memos races with slot reuse under the shard lock", kind="LOCKED")
+@ob("C08.1", ["C08", "C09", "C23", "C16", "C07"], "an unsynchronised access to a value's metadata/durability/fields/memos races with slot reuse under the shard lock", kind="LOCKED")
 def c08_1(cx):
     """Every UnsafeCell::get on Value.{lru.metadata, durability, fields, memos} is (a) dominated by a live shard-lock guard in the same body, (b) in a body that receives &mut IngredientShard / &mut self, (c) in an `unsafe fn` (contract: caller holds the lock), (d) in a closure created under (a)-(c), or (e) a listed documented exception."""
     n = 0
@@ -248,7 +248,7 @@ def c09_1(cx):
     cx.check(f.const("interned::DEFAULT_REVISIONS") == 3, "default REVISIONS is 3", body=b, detail={"DEFAULT_REVISIONS": f.const("interned::DEFAULT_REVISIONS")}, key="default-revs")
 
 
-@ob("C09.2", ["C09", "C08"], "a non-reusable value on the LRU list becomes a reuse candidate", kind="ONLYIF")
+@ob("C09.2", ["C09", "C08", "C07"], "a non-reusable value on the LRU list becomes a reuse candidate", kind="ONLYIF")
 def c09_2(cx):
     """Every lru.push_front is guarded by is_reusable(durability) (intern_id fast path and reuse path) or by insert_value's `reusable` flag = is_reusable(value.durability); the durability recorded on a re-interned value is max(old, stamp.durability) and a value that stops being reusable is unlinked."""
     b = cx.fn(IN + r"intern_id$")
@@ -400,6 +400,11 @@ def c07_2(cx):
     g = cx.facts.drop_impl(r"clear_memos::inner::TableDropGuard")
     cx.require(g is not None, "TableDropGuard has a Drop impl")
     cx.check(bool(g.calls(r"MemoTableWithTypesMut::<'.*>::drop$|MemoTableWithTypesMut.*::drop$")), "the guard frees the memo table (also on unwind)", body=g, key="guard-drops")
+    # ... and it really is dropped when the event callback unwinds out of take_memos: the unwind edge of that call
+    # leads to a drop of the guard local (a guard wrapped in ManuallyDrop / forgotten up front protects nothing)
+    gl = [s for s in ci.drops(r"TableDropGuard", view="full")]
+    cleanup = [s for s in gl if ci.blocks[s.bb].get("cleanup")]
+    cx.check(bool(cleanup), "clear_memos drops its table guard on the unwind path of take_memos", tk, {"guard_drops": [repr(s) for s in gl]}, key="guard-dropped-on-unwind")
     c0 = cx.fn(IN + r"clear_memos$")
     ic = cx.one_call(c0, IN + r"clear_memos::inner$", "delegation")
     a = cx.args(ic)
